@@ -41,7 +41,7 @@ theorem rabs_sub (a b : Rat) : rabs (a - b) = max a b - min a b := by
 
 theorem orient_spec (iso : Rat) (hiso : 0 < iso) (s : Stream) (ts tt : Rat) (hts : s.ts = some ts)
     (htt : s.tt = some tt) :
-    Oriented (orient iso s ts tt) ∧ (orient iso s ts tt).dt = s.dt ∧ (orient iso s ts tt).q = s.q ∧
+    Oriented (orient iso s ts tt) ∧ (orient iso s ts tt).dt = s.dt ∧
     (orient iso s ts tt).htc = s.htc ∧ (orient iso s ts tt).htr = s.htr ∧
     (orient iso s ts tt).price = s.price := by
   unfold orient
@@ -88,10 +88,10 @@ theorem oriented_congr {s s' : Stream} (h : Oriented s)
 theorem update_consistent (iso : Rat) (hiso : 0 < iso) (s : Stream) (ts tt : Rat)
     (hts : s.ts = some ts) (htt : s.tt = some tt) :
     (update iso s).2 = none ∧ Consistent (update iso s).1 ∧
-    (update iso s).1.dt = s.dt ∧ (update iso s).1.q = s.q ∧ (update iso s).1.htc = s.htc := by
+    (update iso s).1.dt = s.dt ∧ (update iso s).1.htc = s.htc := by
   unfold update
   simp only [hts, htt]
-  obtain ⟨hor, hdt, hq, hhtc, -, -⟩ := orient_spec iso hiso s ts tt hts htt
+  obtain ⟨hor, hdt, hhtc, -, -⟩ := orient_spec iso hiso s ts tt hts htt
   generalize orient iso s ts tt = s1 at *
   obtain ⟨ts1, tt1, lo, hi, k, f1, f2, f3, f4, f5, hlt, f7, f8, f9, f10, f11⟩ := hor
   simp only [f3, f4]
@@ -110,7 +110,7 @@ theorem update_consistent (iso : Rat) (hiso : 0 < iso) (s : Stream) (ts tt : Rat
   have g_tmaxS : s2.tmaxS = s1.tmaxS := by rw [← hs2]; rfl
   have g_htc : s2.htc = s1.htc := by rw [← hs2]; rfl
   obtain ⟨e, a1, a2, a3, a4, a5, a6, a7, a8, a9, a10, a11, a12⟩ := finish_spec s2 _ g_cp
-  refine ⟨e, ⟨?_, ?_, ?_⟩, ?_, ?_, ?_⟩
+  refine ⟨e, ⟨?_, ?_, ?_⟩, ?_, ?_⟩
   · exact oriented_congr ⟨ts1, tt1, lo, hi, k, f1, f2, f3, f4, f5, hlt, f7, f8, f9, f10, f11⟩
       (by rw [a1, g_ts]) (by rw [a2, g_tt]) (by rw [a3, g_tmin]) (by rw [a4, g_tmax])
       (by rw [a5, g_typ]) (by rw [a8, g_dt]) (by rw [a9, g_tminS]) (by rw [a10, g_tmaxS])
@@ -125,7 +125,6 @@ theorem update_consistent (iso : Rat) (hiso : 0 < iso) (s : Stream) (ts tt : Rat
     rw [a11] at h ⊢
     exact a12 h
   · rw [a8, g_dt, hdt]
-  · rw [a7, g_q, hq]
   · rw [a11, g_htc, hhtc]
 
 theorem setHeatFlow_consistent (s : Stream) (v : Rat) (h : Consistent s) :
